@@ -161,6 +161,37 @@ pub proof fn lemma_unlink_step(fx: Seq<Fx>, n: int, e: Fx)
     assert(fx.push(e).skip(n) =~= fx.skip(n).push(e));
     assert(fx.skip(n).push(e).drop_last() =~= fx.skip(n));
 }
+/// the non-empty data blocks of a batch, in request order (what must reach the file)
+pub open spec fn batch_datas<T: Types>(ws: Seq<WriteRequest<T>>) -> Seq<Seq<u8>>
+    decreases ws.len()
+{
+    if ws.len() == 0 { Seq::empty() } else {
+        let p = batch_datas::<T>(ws.drop_last());
+        if ws.last().data@.len() > 0 { p.push(ws.last().data@) } else { p }
+    }
+}
+/// the data blocks of the Write events of a trace, in order
+pub open spec fn written_datas(fx: Seq<Fx>) -> Seq<Seq<u8>>
+    decreases fx.len()
+{
+    if fx.len() == 0 { Seq::empty() } else {
+        let p = written_datas(fx.drop_last());
+        match fx.last() { Fx::Write { fid, data, ok } => p.push(data), _ => p }
+    }
+}
+pub proof fn lemma_batch_datas_step<T: Types>(ws: Seq<WriteRequest<T>>, k: int)
+    requires 0 <= k < ws.len()
+    ensures batch_datas::<T>(ws.take(k + 1)) == (if ws[k].data@.len() > 0 { batch_datas::<T>(ws.take(k)).push(ws[k].data@) } else { batch_datas::<T>(ws.take(k)) })
+{
+    assert(ws.take(k + 1).drop_last() =~= ws.take(k));
+}
+pub proof fn lemma_written_step(fx: Seq<Fx>, n: int, e: Fx)
+    requires 0 <= n <= fx.len()
+    ensures written_datas(fx.push(e).skip(n)) == (match e { Fx::Write { fid, data, ok } => written_datas(fx.skip(n)).push(data), _ => written_datas(fx.skip(n)) })
+{
+    assert(fx.push(e).skip(n) =~= fx.skip(n).push(e));
+    assert(fx.skip(n).push(e).drop_last() =~= fx.skip(n));
+}
 pub proof fn lemma_cb_ids_step<T: Types>(ws: Seq<WriteRequest<T>>, k: int)
     requires 0 <= k < ws.len()
     ensures cb_ids::<T>(ws.take(k + 1)) == (match ws[k].callback { Some(c) => cb_ids::<T>(ws.take(k)).push(c.cb_id()), None => cb_ids::<T>(ws.take(k)) })
